@@ -5,8 +5,37 @@
 (* guarded by its own lock (repaired code); "asBuilt" = the plain map of the   *)
 (* pinned tree (named deviation, TLC must find the race).                      *)
 EXTENDS Naturals, FiniteSets, TLC
-CONSTANTS Procs, Discipline, NOps, Ctxs
-VARIABLES pc, left, mlock, macc, memo, need, pool, held, dirty, got
+\* (the @type comments are for Apalache, which discharges the inductive invariant of apalache/GlobalsInd.tla; TLC ignores them)
+CONSTANTS
+  \* @type: Set(Str);
+  Procs,
+  \* @type: Str;
+  Discipline,
+  \* @type: Int;
+  NOps,
+  \* @type: Set(Str);
+  Ctxs
+VARIABLES
+  \* @type: Str -> Str;
+  pc,
+  \* @type: Str -> Int;
+  left,
+  \* @type: Str;
+  mlock,
+  \* @type: Str -> Str;
+  macc,
+  \* @type: Set(Int);
+  memo,
+  \* @type: Str -> Int;
+  need,
+  \* @type: Set(Str);
+  pool,
+  \* @type: Str -> Str;
+  held,
+  \* @type: Str -> Bool;
+  dirty,
+  \* @type: Str -> Str;
+  got
 vars == <<pc, left, mlock, macc, memo, need, pool, held, dirty, got>>
 \* memo: set of method-set indexes already rendered; need[p]: the index p's current op needs
 \* pool: idle contexts; held[p]: the context p's request is using ("none"); dirty[c]: c still carries parameters
